@@ -138,6 +138,18 @@ def UnsetSafe (u : UC) (m : MM) : Prop :=
       ((keyCell u sc s (colExact sc.attrs kk.1)).2 = none ∨ (keyCell u tc t (colCI u tc.attrs kk.2)).2 = none) →
       cellMatch (canonCell (keyCell u sc s (colExact sc.attrs kk.1))) (canonCell (keyCell u tc t (colCI u tc.attrs kk.2))) = false
 
+/-- REFERENTIAL CELLS ARE BACKED BY LINKS: a row that carries a non-null value in some source key cell of an association
+    is linked across it (some row of the target class matches all its key cells).  This is the condition under which the
+    model's `BState.toMM` (which keeps the INSERT value of a referential cell) is what the implementation's `getattr`
+    returns after `populate_connections` removed the cell from `__dict__` (it then reads through the link, `None` when there
+    is none).  True of every model built through the API: an unrelated instance reads `None` in all its referential
+    attributes, a related one reads the identifying values of its partner. -/
+def RefsResolve (u : UC) (m : MM) : Prop :=
+  ∀ a ∈ m.assocs, ∀ sc tc, m.findClass u a.src.kind = some sc → m.findClass u a.tgt.kind = some tc →
+    ∀ s ∈ sc.rows,
+      (∃ k ∈ a.src.keys, isNullL (keyCell u sc s (colExact sc.attrs k)).1 (keyCell u sc s (colExact sc.attrs k)).2 = false) →
+      ∃ t ∈ tc.rows, rowsMatch u a sc tc s t = true
+
 /-- the type a key column resolves to -/
 def colType (u : UC) (c : ClassM) (col : Option Nat) : Option Ty :=
   match col with
